@@ -35,6 +35,11 @@ def is_synced(x):
     return hasattr(x, "_to_base") and hasattr(x, "_load_and_save")
 
 
+def is_attr_dict(o):
+    from synced_collections.data_types.attr_dict import AttrDict
+    return isinstance(o, AttrDict)
+
+
 def raw_data(o):
     return object.__getattribute__(o, "_data")
 
@@ -72,6 +77,15 @@ def strict_eq(a, b):
         return (isinstance(a, (list, tuple)) and isinstance(b, (list, tuple)) and len(a) == len(b)
                 and all(strict_eq(x, y) for x, y in zip(a, b)))
     return type(a) is type(b) and a == b
+
+
+def canon_key(v):
+    """A sort key that ignores dict key order (repr() does not) and keeps JSON types apart."""
+    if isinstance(v, dict):
+        return "{" + ",".join(sorted(repr(k) + ":" + canon_key(x) for k, x in v.items())) + "}"
+    if isinstance(v, (list, tuple)):
+        return "[" + ",".join(canon_key(x) for x in v) + "]"
+    return type(v).__name__ + ":" + repr(v)
 
 
 def forbidden_items(v, family_json_leaves, no_dots):
@@ -150,7 +164,7 @@ class Session:
         return "[" + ";".join(f"({i}%nat,{'None' if c is MISSING else '(Some ' + c_val(c) + ')'})"
                               for i, c in enumerate(contents)) + "]"
 
-    def emit(self, kop, kexp, before_stamps, note):
+    def emit(self, kop, kexp, before_stamps, note, live_override=None):
         after = [st.stamp() for st in self.stores]
         wrote = [i for i, (a, b) in enumerate(zip(before_stamps, after)) if a != b]
         contents = self.contents()
@@ -158,7 +172,7 @@ class Session:
             h_ = self.history.setdefault(i_, [])
             if c_ is not MISSING and (not h_ or h_[-1] != c_) and len(h_) < 12:
                 h_.append(copy.deepcopy(c_))
-        live = self.live_labels()
+        live = self.live_labels() if live_override is None else live_override
         term = ("{| k_op := %s; k_exp := %s; k_res := %s; k_wrote := [%s]; k_live := [%s] |}" % (
             kop, kexp, self.c_contents(contents), ";".join(f"{w}%nat" for w in wrote),
             ";".join(f"{l}%nat" for l in sorted(live))))
@@ -211,8 +225,19 @@ class Session:
         self.emit(f"(KExt {si} (Some {c_val(value)}))", "KAny", before, {"op": "ext", "store": si, "value": jsonable(value)})
         self.count("ext")
 
+    def step_ext_remove(self, si):
+        """Out-of-band removal of the resource."""
+        if self.stores[si].read() is MISSING:
+            return
+        self.stores[si].remove()
+        before = [s.stamp() for s in self.stores]
+        self.emit(f"(KExt {si} None)", "KAny", before, {"op": "ext-remove", "store": si})
+        self.count("ext-remove")
+
     def step_op(self, lbl, op):
         h = self.by_label[lbl]
+        set_current(lambda: {"harness": "K1", "class": self.root_cls.__name__, "seed": self.seed, "pending_op": jsonable(op),
+                             "steps_so_far": getattr(self, "log", None)})
         oid = self.owner[lbl]
         si = self.objs[oid][2]
         live = self.live_labels()
@@ -235,8 +260,38 @@ class Session:
             return x
 
         opc = copy.deepcopy(op)
+        # attribute syntax for the attribute-access dict families, for every key C18 says it covers
+        use_attr = (not is_list and op[0] in ("DGet", "DSet", "DDel") and isinstance(op[1], str)
+                    and is_attr_dict(h) and op[1] not in type(h)._PROTECTED_KEYS
+                    and not op[1].startswith("__") and not hasattr(type(h), op[1]) and self.g.r.random() < 0.5)
+        form = "mapping"
+        if op[0] == "DUpdate" and isinstance(op[1], dict):
+            form = self.g.r.choice(["mapping", "mapping", "pairs", "pairs", "iterator", "kwargs"])
+            if form == "kwargs" and not all(isinstance(k_, str) for k_ in op[1]):
+                form = "pairs"
+            self.count("update-" + form)
         try:
-            r = apply_lop(h, opc, conv) if is_list else apply_dop(h, opc, conv)
+            if use_attr:
+                self.count("attr-syntax")
+                try:
+                    if op[0] == "DGet":
+                        r = conv(getattr(h, op[1]))
+                    elif op[0] == "DSet":
+                        r = setattr(h, op[1], opc[2])
+                    else:
+                        r = delattr(h, op[1])
+                except AttributeError as e:
+                    raise KeyError(str(e))          # C18: a missing key is an AttributeError in attribute syntax
+            elif op[0] == "DUpdate" and isinstance(opc[1], dict) and form != "mapping":
+                # the other call forms of update(): an iterable of pairs, an iterator, keyword arguments
+                if form == "kwargs":
+                    r = h.update(**opc[1])
+                elif form == "pairs":
+                    r = h.update([(k_, v_) for k_, v_ in opc[1].items()])
+                else:
+                    r = h.update(iter([[k_, v_] for k_, v_ in opc[1].items()]))
+            else:
+                r = apply_lop(h, opc, conv) if is_list else apply_dop(h, opc, conv)
             r = copy.deepcopy(r)
             res = ("ok", r)
         except Exception as e:  # noqa
@@ -261,10 +316,74 @@ class Session:
                 kexp = f"(KVal (Err {res[1]}) None)"
         note = {"op": jsonable(op), "via": lbl, "oid": oid, "path": jsonable(path), "attached": attached,
                 "result": jsonable(res), "returned_label": returned.get("lbl")}
+        if use_attr:
+            note["syntax"] = "attribute"
+        if form != "mapping":
+            note["call_form"] = form
         contents, wrote, live_after = self.emit(kop, kexp, before, note)
         self.count(op[0] + ("" if res[0] == "ok" else "!" + res[1]))
         self.count(f"depth{len(path)}" if attached else "detached")
         self.oracle(op, is_list, lbl, oid, si, attached, path, pre, res, contents, wrote, live_after)
+        return res
+
+
+    def step_cmp_synced(self, lbl, op, l2):
+        """`h <cmp> h2` with a SYNCED right operand.  Emitted as two model steps: h2() (the comparison must load the
+        operand: what h2 holds afterwards is the observed result) and the comparison of h with that plain value."""
+        h, h2 = self.by_label[lbl], self.by_label[l2]
+        oid, oid2 = self.owner[lbl], self.owner[l2]
+        si, si2 = self.objs[oid][2], self.objs[oid2][2]
+        live = self.live_labels()
+        path, path2 = live[lbl][1], live[l2][1]
+        is_list = isinstance(raw_data(h), list)
+        set_current(lambda: {"harness": "K1", "class": self.root_cls.__name__, "seed": self.seed, "pending_op": [op[0], "synced operand", l2],
+                             "steps_so_far": self.log})
+        pre = self.stores[si].read()
+        pre2 = self.stores[si2].read()
+        self.mem_before = copy.deepcopy(self.objs[oid][1]._to_base())
+        mem2 = copy.deepcopy(self.objs[oid2][1]._to_base())
+        before = [s.stamp() for s in self.stores]
+        try:
+            if op[0] in ("LEq", "DEq"):
+                res = ("ok", h == h2)
+            else:
+                res = ("ok", {"<": h.__lt__, "<=": h.__le__, ">": h.__gt__, ">=": h.__ge__}[op[1]](h2))
+        except Exception as e:  # noqa
+            res = ("err", err_class(e), type(e).__name__)
+        held2 = copy.deepcopy(h2._to_base())           # no load: what the operand holds after the comparison
+        call = "(OL LCall)" if is_list else "(OD DCall)"
+        try:
+            c_held2 = c_val(held2)
+        except ValueError:
+            return res
+        # Python evaluates `self() <cmp> other()`: the left object loads first (which may detach the operand handle)
+        op2 = (op[0], held2) if op[0] in ("LEq", "DEq") else (op[0], op[1], held2)
+        nop = f"(OL {c_lop(op2)})" if is_list else f"(OD {c_dop(op2)})"
+        try:
+            kexp = f"(KVal (Ok {c_val(res[1])}) None)" if res[0] == "ok" else f"(KVal (Err {res[1]}) None)"
+        except ValueError:
+            kexp = "KAny"
+        # after the first model step only the left object has loaded: handles of other objects are as before
+        now = self.live_labels()
+        live_a = {l: v for l, v in live.items() if self.owner[l] != oid}
+        live_a.update({l: v for l, v in now.items() if self.owner[l] == oid})
+        contents, wrote, _ = self.emit(f"(KOp {oid} {lbl} {nop})", kexp, before,
+                                       {"op": jsonable(op2), "synced_operand": l2, "via": lbl, "oid": oid, "path": jsonable(path),
+                                        "attached": True, "result": jsonable(res)}, live_override=live_a)
+        live_after = now
+        if l2 in live_after:
+            self.emit(f"(KOp {oid2} {l2} {call})", f"(KVal (Ok {c_held2}) None)", before,
+                      {"op": ["operand-load", op[0]], "via": l2, "oid": oid2, "path": jsonable(path2), "attached": True, "result": jsonable(held2)})
+        else:
+            self.emit(f"(KTouch {oid2} false)", "KAny", before,
+                      {"op": ["operand-load", op[0]], "via": l2, "oid": oid2, "attached": False, "result": jsonable(held2)})
+        self.count(op[0] + "-synced")
+        # oracle: the comparison must be the comparison of the two positions' CURRENT backend contents
+        cur2 = copy.deepcopy(mem2) if pre2 is MISSING else copy.deepcopy(pre2)
+        found2, truth2 = navigate(cur2, path2)
+        if found2 and isinstance(truth2, list) == is_list and isinstance(truth2, (list, dict)):
+            opt = (op[0], truth2) if op[0] in ("LEq", "DEq") else (op[0], op[1], truth2)
+            self.oracle(opt, is_list, lbl, oid, si, True, path, pre, res, contents, wrote, live_after)
         return res
 
     # ---- IMPL <-> SPEC oracles
@@ -350,7 +469,7 @@ class Session:
             if not (res[0] == "err" and exp[0] == "err" and {res[1], exp[1]} <= {"EType", "EValue"}):
                 self.fail("C03-result", f"{op[0]}: impl {jsonable(res)} vs built-in {jsonable(exp)}")
         elif res[0] == "ok" and op[0] in ("DIter", "DKeys", "DValues", "DItems"):
-            if not strict_eq(sorted(res[1], key=repr), sorted(exp[1], key=repr)):
+            if not strict_eq(sorted(res[1], key=canon_key), sorted(exp[1], key=canon_key)):
                 self.fail("C02-read", f"{op[0]}: impl returned {jsonable(res[1])}, built-in {jsonable(exp[1])}")
         elif res[0] == "ok" and not strict_eq(res[1], exp[1]):
             self.fail("C02-read" if is_read(op) else "C03-result", f"{op[0]}: impl returned {jsonable(res[1])}, built-in {jsonable(exp[1])}")
@@ -396,7 +515,10 @@ class Session:
             live = self.live_labels()
             if r < p.get("ext", 0):
                 si = self.g.r.randrange(len(self.stores))
-                self.step_ext(si, self.ext_value(si))
+                if self.g.r.random() < p.get("ext_remove", 0):
+                    self.step_ext_remove(si)
+                else:
+                    self.step_ext(si, self.ext_value(si))
                 continue
             if r < p.get("ext", 0) + p.get("newobj", 0) and len(self.objs) < 4:
                 self.step_new(self.g.r.randrange(len(self.stores)))
@@ -420,6 +542,8 @@ class Session:
                 op = self.g.list_read(plain) if want_read else self.g.list_mut(plain, p.get("vdepth", 2))
             else:
                 op = self.g.dict_read(plain) if want_read else self.g.dict_mut(plain, p.get("vdepth", 2))
+            if not isinstance(data, list) and is_attr_dict(h) and op[0] in ("DSet", "DGet", "DDel") and self.g.r.random() < 0.2:
+                op = (op[0], "_p") + tuple(op[2:])        # a key with a leading underscore that is not a protected name
             if not want_read and self.g.r.random() < p.get("invalid", 0):
                 op = self.inject_invalid(op)
             if self.g.r.random() < p.get("retype", 0.08):
@@ -438,6 +562,12 @@ class Session:
                 c_lop(op) if isinstance(data, list) else c_dop(op)
             except ValueError:
                 continue
+            if op[0] in ("LEq", "DEq", "LCmp") and lbl in live and self.g.r.random() < p.get("synced_cmp", 0.4):
+                others = [l for l in live if l != lbl and isinstance(raw_data(self.by_label[l]), list) == isinstance(data, list)
+                          and type(self.by_label[l]) is type(h)]
+                if others:
+                    self.step_cmp_synced(lbl, op, self.g.r.choice(others))
+                    continue
             self.step_op(lbl, op)
             # navigate to children so that handles get retained
             if self.g.r.random() < p.get("navigate", 0.5):
@@ -469,7 +599,11 @@ class Session:
             return (n, op[1], bv)
         if n in ("DUpdate", "DReset"):
             v = dict(op[1]) if isinstance(op[1], dict) else {}
-            v[self.g.r.choice(["zz", "a"])] = bv
+            if self.g.r.random() < 0.35:
+                from gen import DOT_KEYS
+                v[self.g.r.choice(list(BAD_KEYS.values()) + (DOT_KEYS if self.no_dots else []))] = self.g.scalar(True)   # forbidden top-level key
+            else:
+                v[self.g.r.choice(["zz", "a"])] = bv
             return (n, v)
         return op
 
@@ -578,13 +712,14 @@ def c_optn(x):
 
 PROFILES = {
     "C01": {"objects": 1, "resources": 1, "reads": 0.15, "deep": 0.65, "navigate": 0.6},
-    "C02": {"objects": 2, "resources": 1, "reads": 0.6, "ext": 0.25, "deep": 0.7, "navigate": 0.6, "init": True, "vdepth": 3},
+    "C02": {"objects": 2, "resources": 1, "reads": 0.6, "ext": 0.25, "ext_remove": 0.12, "deep": 0.7, "navigate": 0.6, "init": True, "vdepth": 3},
     "C03": {"objects": 1, "resources": 1, "reads": 0.45, "deep": 0.4, "navigate": 0.4},
+    "C03b": {"objects": 2, "resources": 1, "reads": 0.5, "ext": 0.08, "newobj": 0.06, "deep": 0.5, "navigate": 0.5, "init": True, "synced_cmp": 0.6},
     "C04": {"objects": 3, "resources": 1, "reads": 0.2, "deep": 0.7, "navigate": 0.7, "init": True, "newobj": 0.03},
     "C11": {"objects": 1, "resources": 1, "reads": 0.1, "deep": 0.6, "navigate": 0.5, "invalid": 0.5, "ctor_data": 0.7},
     "C12": {"objects": 1, "resources": 1, "reads": 0.2, "deep": 0.5, "navigate": 0.5, "vdepth": 4, "ctor_data": 0.3},
-    "C17": {"objects": 2, "resources": 2, "reads": 0.85, "deep": 0.5, "navigate": 0.5, "ext": 0.1, "init": True},
-    "MIX": {"objects": 2, "resources": 2, "reads": 0.3, "ext": 0.1, "deep": 0.6, "navigate": 0.5, "invalid": 0.1, "detached": 0.05},
+    "C17": {"objects": 2, "resources": 2, "reads": 0.85, "deep": 0.5, "navigate": 0.5, "ext": 0.12, "ext_remove": 0.35, "init": True, "ctor_data": 0.3},
+    "MIX": {"objects": 2, "resources": 2, "reads": 0.3, "ext": 0.1, "ext_remove": 0.1, "newobj": 0.03, "deep": 0.6, "navigate": 0.5, "invalid": 0.1, "detached": 0.05},
 }
 
 
